@@ -180,9 +180,27 @@ func (smpl *Simple[Type]) main() {
 	case <-smpl.breaker.IsBreaked():
 	case <-smpl.opts.Ctx.Done():
 	case <-smpl.graceful.IsBreaked():
-		smpl.priority.GracefulStop()
+		smpl.gracefulStop()
 	case err := <-smpl.priority.Err():
 		smpl.err <- err
+	}
+}
+
+// Waits for graceful termination of the prioritization discipline, but no longer than
+// until the rough stop or cancellation of the context.
+func (smpl *Simple[Type]) gracefulStop() {
+	done := make(chan struct{})
+
+	go func() {
+		defer close(done)
+
+		smpl.priority.GracefulStop()
+	}()
+
+	select {
+	case <-smpl.breaker.IsBreaked():
+	case <-smpl.opts.Ctx.Done():
+	case <-done:
 	}
 }
 
